@@ -8,6 +8,7 @@ hypothesis `Lawful lib` (Iota/Proofs/Ed/Lawful.lean); further hypotheses (`Cofac
   Verify     E1 `verify` = ZIP-215 set; pre-check, malleability, unreduced hash, torsion, std ⊆ ZIP-215
   Sign       E2 clamping, key generation, sign-then-verify, `signerSign`, panics
   Canonical  E3 `isCanonicalY` ⇔ `y < p`
+  Witness    a concrete library (over ZMod L) satisfying every hypothesis at once: the theorems are not vacuous
   Vrf        E3 proof codec, completeness, key validation, uniqueness (algebraic half)
 This file collects the headline statements.
 -/
@@ -17,6 +18,7 @@ import Iota.Proofs.Ed.Verify
 import Iota.Proofs.Ed.Sign
 import Iota.Proofs.Ed.Canonical
 import Iota.Proofs.Ed.Vrf
+import Iota.Proofs.Ed.Witness
 
 namespace Iota.Proofs.Ed
 open Iota.Edwards (Bytes leNat leBytes L)
